@@ -548,7 +548,7 @@ def handle (op : String) (j : Json) : P Json := do
     let own ← bodyOfJson (← j.getObjVal? "own")
     let attrs ← (← arrField j "attrs").mapM infoOfJson
     let b := customBody own attrs
-    pure (Json.mkObj [("body", bodyToJson b), ("valid", bodyOK "custom" b)])
+    pure (Json.mkObj [("body", bodyToJson b), ("valid", bodyOK "custom" b), ("attrkeys", strListToJson (attrDataKeys b))])
   | "legacy" => handleLegacy j
   | "mutations" => handleMutations j
   | "points" => handlePoints j
